@@ -186,8 +186,46 @@ def ob_interval_siblings(ctx, res):
         t = up(fn.body)
         if "self.blocks.next()?" not in t or t.count(dec + "(") != 1 or "vals.next()" not in t:
             res.fail("intervalSiblings/%s/next" % ty, fn, "iterator must drain the current block's values, then take the next block in order")
-        else:
-            res.ok(fn, "%s::next: current block's values first, then blocks.next() (search order), decoded by %s" % (ty, dec))
+            continue
+        # exits: a value of the current block, exhaustion of the block list, or a decode error - nothing else ends or leaves the loop.
+        # In particular a block that holds no value in range (the index search is inclusive, so a block merely touching the range is
+        # returned) must not end the iteration.
+        body = fn.body
+        tail = body["stmts"][-1] if body["stmts"] else None
+        if tail is None or strip(tail["e"] if tail.k == "expr_stmt" else tail).k != "loop":
+            res.fail("intervalSiblings/%s/loop" % ty, fn, "next() must be one loop over (current block's values | next block)")
+            continue
+        bad = None
+        for n in walk_no_nested_fn(body):
+            if n.k == "try" and up(strip(n["e"])) != "self.blocks.next()":
+                bad = (n, "`?` on `%s` ends the iteration although blocks may remain" % up(strip(n["e"])))
+            elif n.k == "break":
+                bad = (n, "break leaves the block loop")
+            elif n.k == "return":
+                r = up(strip(n["e"])) if n.get("e") is not None else ""
+                m = re.fullmatch(r"Some\((Ok|Err)\((\w+)\)\)", r)
+                arm = n.parent
+                while arm is not None and isinstance(arm, Node) and arm.k != "arm":
+                    arm = arm.parent
+                okr = False
+                if m and arm is not None:
+                    pat = up(arm["pat"])
+                    mt = arm.parent
+                    while mt is not None and isinstance(mt, Node) and mt.k != "match":
+                        mt = mt.parent
+                    sc = up(strip(mt["scrut"])) if mt is not None else ""
+                    if m.group(1) == "Ok" and pat == "Some(%s)" % m.group(2) and re.fullmatch(r"\w+\.next\(\)", sc):
+                        okr = True
+                    if m.group(1) == "Err" and pat == "Err(%s)" % m.group(2) and sc.startswith(dec + "("):
+                        okr = True
+                if not okr:
+                    bad = (n, "unexpected exit `return %s`: only a value of the current block or a decode error may be returned" % r)
+            if bad:
+                break
+        if bad:
+            res.fail("intervalSiblings/%s/exits" % ty, bad[0], bad[1])
+            continue
+        res.ok(fn, "%s::next: current block's values first, then blocks.next() (search order), decoded by %s; exits only with a block value, a decode error, or when the block list is exhausted" % (ty, dec))
 
 
 def ob_values_array(ctx, res):
@@ -265,3 +303,75 @@ def ob_reopen(ctx, res):
         t = up(f2.body)
         if not re.fullmatch(r"\{self\.file\.%s\((\w+)\)\}" % name, t):
             res.fail("reopen/forward-%s" % name, f2, "ReopenableFile::%s must forward to the file unchanged" % name)
+
+
+def ob_intersect_tool(ctx, res):
+    """C04-T1: `bigtools intersect` queries each BED line's (chrom, start, end) and prints every returned entry"""
+    BT = "bigtools/src/bin/bigtools.rs"
+    fn = ctx.ast.fn(BT, "intersect")
+    gi = list(calls(fn.body, method="get_interval"))
+    if len(gi) != 1:
+        res.fail("intersect/query", fn, "expected one get_interval per input line")
+        return
+    a = gi[0]["args"]
+    oc, os_, oe = origin(fn, a[0]), origin(fn, a[1]), origin(fn, a[2])
+    # chrom, start, end are the 1st, 2nd, 3rd `split.next()` of the same line, start/end parsed as u32
+    splits = [c for c in walk_no_nested_fn(fn.body) if c.k == "mcall" and c["method"] == "next" and "splitn" in origin(fn, c["recv"])]
+    splits.sort(key=lambda c: (c["sp"][0], c["sp"][1]))
+    def holder(c):
+        s = c
+        while s is not None and isinstance(s, Node) and s.k != "let":
+            s = s.parent
+        return up(s["pat"]) if s is not None and isinstance(s, Node) else None
+    names = [holder(c) for c in splits]
+    want = [up(strip(a[0])), up(strip(a[1])), up(strip(a[2]))]
+    if len(splits) != 3 or names != want:
+        res.fail("intersect/columns", gi[0], "the query must be (column 1, column 2, column 3) of the line in that order; columns are bound to %s, query uses %s" % (names, want))
+        return
+    for nm, o in (("start", os_), ("end", oe)):
+        if "parse" not in o:
+            res.fail("intersect/parse", gi[0], "%s must be the parsed integer column" % nm)
+            return
+    # every returned entry is printed: the only `continue`s are in error arms; no filter
+    fl = [n for n in walk_no_nested_fn(fn.body) if n.k == "for" and "get_interval" in origin(fn, n["iter"])]
+    if len(fl) != 1:
+        res.fail("intersect/loop", fn, "expected one loop over the query result")
+        return
+    for n in walk_no_nested_fn(fl[0]["body"]):
+        if n.k in ("continue", "break", "return"):
+            arm = n.parent
+            while arm is not None and isinstance(arm, Node) and arm.k != "arm":
+                arm = arm.parent
+            if arm is None or not up(arm["pat"]).startswith("Err("):
+                res.fail("intersect/skip", n, "a returned entry is skipped outside an error arm")
+                return
+        if n.k == "if":
+            res.fail("intersect/filter", n, "returned entries must not be filtered again (the query decides overlap)")
+            return
+    wf = [c for c in walk_no_nested_fn(fl[0]["body"]) if c.k == "mcall" and c["method"] in ("write_fmt", "write_all")]
+    wm = [m for m in walk_no_nested_fn(fl[0]["body"]) if m.k == "macro" and m["path"] in ("format_args", "writeln", "write")]
+    if len(wf) + len([m for m in wm if m["path"] != "format_args"]) != 1 or not wm:
+        res.fail("intersect/print", fl[0], "each entry must be printed exactly once")
+        return
+    m = [m for m in wm][0]
+    fmt = m["args"][0]["v"] if m["path"] == "format_args" else m["args"][1]["v"]
+    args = [up(strip(x)) for x in (m["args"][1:] if m["path"] == "format_args" else m["args"][2:])]
+    ev = up(fl[0]["pat"])
+    vn = None
+    for l in walk_no_nested_fn(fl[0]["body"]):
+        if l.k == "let" and ev in up(l["init"]) and l["pat"].k == "p_ident":
+            vn = l["pat"]["name"]
+            break
+    if fmt != "{}\t{}\t{}\t{}\n" or args != [want[0], "%s.start" % vn, "%s.end" % vn, "%s.rest" % vn] or not up(stmt_of_(m)).rstrip(";").endswith("?"):
+        res.fail("intersect/row", m, "each row must be `chrom<TAB>entry.start<TAB>entry.end<TAB>entry.rest` with write errors propagated; got %r %s" % (fmt, args))
+        return
+    res.ok(fn, "intersect: query = (col1, parsed col2, parsed col3) of each line; every returned entry printed once as chrom, start, end, rest; skips only in error arms")
+
+
+def stmt_of_(n):
+    x = n
+    while x is not None and isinstance(x, Node):
+        if x.k in ("let", "expr_stmt"):
+            return x
+        x = x.parent
+    return n
